@@ -304,6 +304,30 @@ pub fn judge_path(s: &Scenario, b: &Built, path: &[AnnotatedJoints], gap_closing
             }
         }
     }
+    // (3') TRACE means "directly matches one of the stroke poses given in the input" (its documentation), LAND / PARK the
+    // landing / parking pose: in a run without RRT legs (whose nodes inherit the flags of the pose they lead to) every
+    // waypoint that carries one of these flags must reproduce a pose of that kind
+    if pure_cartesian && anchors.len() == wanted.len() {
+        for i in anchors[0]..path.len() {
+            for (flag, name) in [(PathFlags::TRACE, "TRACE"), (PathFlags::PARK, "PARK"), (PathFlags::LAND, "LAND")] {
+                if !has(&path[i].flags, flag) {
+                    continue;
+                }
+                let here = cell.tcp(&path[i].joints);
+                let matches = wanted.iter().filter(|w| w.2 == name).any(|w| {
+                    let (dp, da) = pose_dist(&here, w.1);
+                    dp <= 1e-6 * (1.0 + 1e-3) && da <= 1e-6 * (1.0 + 1e-3)
+                });
+                if !matches {
+                    fails.push((
+                        format!("C12/flag-without-its-pose/{name}"),
+                        format!("waypoint {i} (flags {:#b}) carries {name} but reproduces none of the given {name} poses", path[i].flags.bits()),
+                    ));
+                    break;
+                }
+            }
+        }
+    }
     // (4) interpolated waypoints lie on the segment between the original poses around them
     if anchors.len() == wanted.len() {
         for k in 0..anchors.len() - 1 {
